@@ -10,13 +10,13 @@ use std::sync::Arc;
 use std::time::Duration;
 
 pub mod c03;
-// pub mod c04;
+pub mod c04;
 // pub mod c07s;
 // pub mod c11;
-// pub mod c12;
+pub mod c12;
 // pub mod c15;
 // pub mod c17;
-// pub mod fake;
+pub mod fake;
 
 /// One set of certificates as produced by the bundled generator
 #[derive(Clone, Debug)]
